@@ -70,14 +70,15 @@ Code ==
          IN Out(ROk(n), Content(SliceRead(vbuf, 0, -1, Bytes(p, n))), NoVb, <<>>,
                 IF op.h = "cursor_read" THEN op.pos + n ELSE 0)
     [] op.h \in {"read_vectored_at", "cursor_read_vectored"} ->   \* slice = &self[pos as usize..]  (no clamping)
-         IF op.pos > op.L THEN Out(RPanic, <<>>, NoVb, <<>>, 0)
-         ELSE LET k == Min(op.L - op.pos, tc) w == VNativeRead(mem, Root, Bytes(op.pos, k))
+         \* fixed (read_vectored_at_clamp): pos = pos.min(len) first, like read_at
+         IF op.pos > op.L /\ "read_vectored_at_clamp" \notin Fixed THEN Out(RPanic, <<>>, NoVb, <<>>, 0)
+         ELSE LET q == Min(op.pos, op.L) k == Min(op.L - q, tc) w == VNativeRead(mem, Root, Bytes(q, k))
               IN Out(ROk(k), <<>>, [j \in 1..2 |-> Content(w[j])], <<>>,
                      IF op.h = "cursor_read_vectored" THEN op.pos + k ELSE 0)
     [] op.h = "vec_write" ->             \* extend_from_slice
          Out(ROk(op.n), <<>>, NoVb, Pre \o Bytes(0, op.n), 0)
-    [] op.h = "vec_write_vectored" ->    \* self.reserve(len - self.len()); extend each
-         IF op.pre > TotalPayload THEN Out(RPanic, <<>>, NoVb, Pre, 0)
+    [] op.h = "vec_write_vectored" ->    \* self.reserve(len) (before the fix: len - self.len()); extend each
+         IF op.pre > TotalPayload /\ "vec_write_vectored" \notin Fixed THEN Out(RPanic, <<>>, NoVb, Pre, 0)
          ELSE Out(ROk(TotalPayload), <<>>, NoVb, Pre \o Bytes(0, TotalPayload), 0)
     [] op.h = "slice_write" ->           \* std::io::Write for &mut [u8]
          LET k == Min(op.n, op.lim) IN Out(ROk(k), <<>>, NoVb, Bytes(0, k), op.lim - k)
@@ -96,8 +97,8 @@ Code ==
     [] op.h \in {"vec_write_at", "cursor_vec_write"} ->    \* overwrite + extend, or resize(pos, 0) + extend
          Out(ROk(op.n), <<>>, NoVb, PutZ(Pre, op.pos, Bytes(0, op.n)), IF op.h = "cursor_vec_write" THEN op.pos + op.n ELSE 0)
     [] op.h \in {"vec_write_vectored_at", "cursor_vec_write_vectored"} ->
-         \* if pos <= len { self.reserve(len_total - (self.len() - pos)) } ...
-         IF op.pos <= op.pre /\ TotalPayload < op.pre - op.pos THEN Out(RPanic, <<>>, NoVb, Pre, 0)
+         \* if pos <= len { self.reserve(len_total.saturating_sub(self.len() - pos)) } ... (before the fix: plain -)
+         IF op.pos <= op.pre /\ TotalPayload < op.pre - op.pos /\ "vec_write_vectored_at" \notin Fixed THEN Out(RPanic, <<>>, NoVb, Pre, 0)
          ELSE Out(ROk(TotalPayload), <<>>, NoVb, PutZ(Pre, op.pos, Bytes(0, TotalPayload)),
                   IF op.h = "cursor_vec_write_vectored" THEN op.pos + TotalPayload ELSE 0)
 
@@ -138,12 +139,13 @@ MemAgrees == MemObs = MemRef
 
 \* ---- named deviations --------------------------------------------------------------------
 \* read_vectored_at of slices / arrays / Vec indexes &self[pos..] without clamping (read_at clamps)
-DevReadVectoredAtBeyondEnd == op.h \in {"read_vectored_at", "cursor_read_vectored"} /\ op.pos > op.L
+DevReadVectoredAtBeyondEnd == "read_vectored_at_clamp" \notin Fixed /\ op.h \in {"read_vectored_at", "cursor_read_vectored"} /\ op.pos > op.L
 \* Vec<u8>::write_vectored computes reserve(total - self.len()) and underflows on a longer vector
-DevVecWriteVectoredUnderflow == op.h = "vec_write_vectored" /\ op.pre > TotalPayload
+DevVecWriteVectoredUnderflow == "vec_write_vectored" \notin Fixed /\ op.h = "vec_write_vectored" /\ op.pre > TotalPayload
 \* Vec<u8>::write_vectored_at computes reserve(total - (self.len() - pos)) and underflows when the
 \* payload ends before the end of the vector
-DevVecWriteVectoredAtUnderflow == /\ op.h \in {"vec_write_vectored_at", "cursor_vec_write_vectored"}
+DevVecWriteVectoredAtUnderflow == /\ "vec_write_vectored_at" \notin Fixed
+                                  /\ op.h \in {"vec_write_vectored_at", "cursor_vec_write_vectored"}
                                   /\ op.pos <= op.pre /\ TotalPayload < op.pre - op.pos
 MemKnownDeviation == DevReadVectoredAtBeyondEnd \/ DevVecWriteVectoredUnderflow \/ DevVecWriteVectoredAtUnderflow
 
